@@ -26,7 +26,7 @@ CHECKS = {
  "C18": dict(
    engine="simkit+h-sandbox",
    category="exploration",
-   text="Seeded deterministic simulation of the real parent.rs + child.rs + frame.rs (client task, run_task, one controlled thread per child process, virtual timers, bounded pipes with short I/O, kill/exit/abort) over seeded request sequences from the property's alphabet (the first 9330 runs of a batch enumerate every sequence of kinds of length 1..5, every fault kind in every position; the rest are random); per-request reference oracle (own reply, in order, recovery, bounded liveness, no deadlock). Sampling, not enumeration: a clean batch is evidence. Violations are minimised and replay bit-for-bit.",
+   text="Seeded deterministic simulation of the real parent.rs + child.rs + frame.rs (client task, run_task, one controlled thread per child process, virtual timers, bounded POSIX-like pipes (atomic up to PIPE_BUF, partial non-blocking writes beyond it), kill/exit/abort) over seeded request sequences from the property's alphabet (the first 9330 runs of a batch enumerate every sequence of kinds of length 1..5, every fault kind in every position; the rest are random); per-request reference oracle (own reply, in order, recovery, bounded liveness, no deadlock). Sampling, not enumeration: a clean batch is evidence. Violations are minimised and replay bit-for-bit.",
    design_ref="DESIGN.md 5.1",
    note="Trusted: simkit's POSIX-like pipe/process/timer model (EPIPE, EOF, kill closes ends at once), one child = one controlled thread, interleavings at seam granularity; the child's memory limit is a private real Alloc charged by the test service and, through two hook lines in frame.rs, by the frame buffer and the serialised reply (exhaustion = abort).",
    technique="deterministic simulation with fault injection: seeded schedules x fault sequences, per-step reference oracle, minimised replay"),
@@ -75,14 +75,14 @@ def build():
         "setup_cmd": "./check setup",
         "hooks": {
             "guard": "rink_verif_sim",
-            "enable": "rustc cfg: RUSTFLAGS=--cfg rink_verif_sim, set for /verif's own cargo workspace in /verif/.cargo/config.toml; rink-sandbox is compiled through a generated shadow manifest (same sources from /repo's working tree, one extra path dependency on simkit)",
+            "enable": "rustc cfg: RUSTFLAGS=--cfg rink_verif_sim, set for /verif's own cargo workspace in /verif/.cargo/config.toml; rink-sandbox is compiled as a generated shadow crate (a manifest with one extra path dependency on simkit plus copies of /repo's sandbox/src/*.rs, made from the working tree by every check, in which full-path uses of std/async-std facilities are re-routed to the simulator)",
             "baseline_off_cmd": "cd /repo && (cargo nextest run --workspace --no-fail-fast --test-threads 8 --offline || cargo test --workspace --no-fail-fast --offline)",
             "source_commits": hook_commits,
             "add_only": True,
         },
         "engines": [
             {"name": "simkit", "path": "simkit", "serves_properties": sorted(CHECKS), "kind_free_text": "hand-written deterministic simulator: virtual clock and timers, seeded scheduler over async tasks and baton-controlled OS threads, simulated pipes/process table/FS/HTTP transfer, Chooser-recorded decisions, generic minimiser, replay files, master/worker runner"},
-            {"name": "h-sandbox", "path": "harness/sandbox", "serves_properties": ["C18", "C19"], "kind_free_text": "scenario generators, test service and oracles for the sandbox crate (compiled through a shadow manifest)"},
+            {"name": "h-sandbox", "path": "harness/sandbox", "serves_properties": ["C18", "C19"], "kind_free_text": "scenario generators, test service and oracles for the sandbox crate (compiled against the generated shadow crate of rink-sandbox)"},
             {"name": "h-cache", "path": "harness/cache", "serves_properties": ["C20"], "kind_free_text": "cli/src/config.rs compiled against stand-in crates named curl, tempfile, dirs (standins/), history generator, crash sweep and oracle"},
             {"name": "h-history", "path": "harness/history", "serves_properties": ["C15"], "kind_free_text": "query-history generator and reference model over rink_core::eval"},
         ],
